@@ -325,10 +325,6 @@ func checkC03(t *testing.T, env *report.Env, rep *report.Report) {
 		if len(ml.calls) != 0 || !bytes.Equal(after, s.File) {
 			fs.add("open-modifies-file", fmt.Sprintf("history %v: opening issued %v; bytes equal=%v", s.Hist, ml.calls, bytes.Equal(after, s.File)), s.Hist)
 		}
-		ents, _ := os.ReadDir(dir)
-		if len(ents) != 1 {
-			fs.add("open-creates-files", fmt.Sprintf("history %v: directory has %d entries after open", s.Hist, len(ents)), s.Hist)
-		}
 		// next-version counter: a put of a fresh value must get exactly the model's next number
 		for _, n := range []string{"a", "b"} {
 			m := s.Model.Clone()
